@@ -40,11 +40,17 @@ static const time_t T_PRIV = aiounicast::aio_timeout_middle, T_RBC = aiounicast:
 struct Scen {
 	int proto = 0; size_t n = 0, t = 0, tp = 0; std::vector<size_t> F; std::vector<Dev> devs;
 	size_t dealer = 0; long dmax = 0; double preempt = 0; int grp = 0; uint64_t sseed = 1; int sigma_kind = 0;
+	// resilience the reliable broadcast is configured with: by default the protocol's own t (as in the repository's
+	// tests, which use 3t < n); scenarios with n/3 <= t < n/2 set it to floor((n-1)/3), what a deployment has to do,
+	// and let at most that many parties deviate
+	size_t trbc = (size_t)-1;
+	size_t rbc_t() const { return trbc == (size_t)-1 ? t : trbc; }
 	bool faulty(size_t i) const { return std::find(F.begin(), F.end(), i) != F.end(); }
 	const Dev *dev_of(size_t i) const { for (size_t a = 0; a < F.size(); a++) if (F[a] == i) return &devs[a]; return nullptr; }
 	std::string json() const {
 		J j; j.kv("proto", PNAME[proto]).kv("n", (long long)n).kv("t", (long long)t);
 		if (tp != t) j.kv("tprime", (long long)tp);
+		if (trbc != (size_t)-1) j.kv("rbc_t", (long long)trbc);
 		j.arrn("F", F);
 		std::string d = "["; for (size_t a = 0; a < devs.size(); a++) { if (a) d += ","; d += devs[a].json(); } d += "]";
 		j.raw("devs", d);
@@ -158,7 +164,7 @@ static void party_main(World &W, const Scen &sc, const Group &G, Party &P, long 
 	size_t n = sc.n, t = sc.t, i = P.i;
 	P.aiou = new DevUnicast(n, i, &W.uni, &W, false, T_PRIV);
 	P.aiou2 = new DevUnicast(n, i, &W.bc, &W, true, T_RBC);
-	P.rbc = new RBC(n, t, i, P.aiou2, aiounicast::aio_scheduler_roundrobin, T_RBC);
+	P.rbc = new RBC(n, sc.rbc_t(), i, P.aiou2, aiounicast::aio_scheduler_roundrobin, T_RBC);
 	P.rbc->setID("c15");
 	P.aiou2->rbc = P.rbc; P.aiou->q = G.q; P.aiou2->q = G.q;
 	mpz_mul(P.aiou2->gh.v, G.g.v, G.h.v); mpz_mod(P.aiou2->gh.v, P.aiou2->gh.v, G.p.v);
@@ -276,7 +282,7 @@ static bool scan_timeouts(Verdicts &V, std::vector<Party *> &P, int ph) {
 	// (a) time-outs between honest parties
 	for (size_t i = 0; i < sc.n; i++) {
 		if (honest_from[i] < 0) continue;
-		if (3 * sc.t >= sc.n) {
+		if (3 * sc.rbc_t() >= sc.n) {
 			// the reliable broadcast is operated beyond its own bound t < n/3 (it then needs the ready message of every
 			// party): a party that waits on its private links stalls it.  Documented resilience limit: recorded, not judged.
 			count(std::string("stall_beyond_rbc_bound.") + PNAME[sc.proto]); V.beyond_bound_stall = true; return true;
@@ -587,6 +593,39 @@ static void build_list(std::vector<Scen> &L) {
 			for (int kind = D_BUILTIN; kind < D_KINDS; kind++) {
 				Scen sc = base(p, 7, 2); sc.F = {r.below(3), 3 + r.below(4)}; if (p == P_PVSS) sc.dealer = (kind % 2) ? sc.F[0] : (sc.F[0] + 1) % 3;
 				for (size_t f : sc.F) { std::vector<int> ks = kinds_for(p, p == P_PVSS && f == sc.dealer); int kk = std::find(ks.begin(), ks.end(), kind) != ks.end() ? kind : ks[0]; sc.devs.push_back(make_dev(kk, sc, f, r)); }
+				add(sc);
+			}
+		}
+	}
+	// ---- thresholds n/3 <= t < n/2 with deviating parties (appended after everything else: earlier case numbers are stable).
+	//      The broadcast runs with floor((n-1)/3), at most that many parties deviate.  Reconstruction paths then interpolate
+	//      from t+1 >= 3 (n = 5) resp. 4 (n = 7) points, which no t < n/3 scenario with n <= 7 reaches.
+	for (int p = 0; p < P_COUNT; p++) {
+		struct NT { size_t n, t; }; std::vector<NT> hs = {{5, 2}, {7, 3}, {6, 2}};
+		for (size_t a = 0; a < hs.size(); a++) {
+			size_t n = hs[a].n, t = hs[a].t, trbc = (n - 1) / 3;
+			if (p == P_CDKG && 2 * t + 1 > n) continue;
+			{ Scen sc = base(p, n, t); sc.trbc = trbc; set_net(sc, (int)r.below(4), r); add(sc); }   // all honest: must complete now
+			// (i) a party that takes part in the sharing and then fails: silent after its sharing-phase broadcasts
+			//     (joint protocols: t'+1 commitments + two end markers), (ii) one altered broadcast after them,
+			//     (iii) rotating kinds, (iv) two deviating parties where the broadcast tolerates them
+			int reps = quick ? 1 : 6;
+			for (int rep = 0; rep < reps; rep++) for (int v = 0; v < 4; v++) {
+				if (quick && a == 2 && v >= 2) continue;
+				Scen sc = base(p, n, t); sc.trbc = trbc;
+				size_t nf = (v == 3 && trbc >= 2) ? 2 : 1; if (v == 3 && trbc < 2 && quick) continue;
+				while (sc.F.size() < nf) { size_t f = r.below(n); if (!sc.faulty(f)) sc.F.push_back(f); }
+				std::sort(sc.F.begin(), sc.F.end());
+				if (p == P_PVSS) sc.dealer = (v % 2) ? sc.F[0] : (sc.F[0] + 1) % n;
+				for (size_t f : sc.F) {
+					bool isdealer = (p == P_PVSS && f == sc.dealer);
+					std::vector<int> ks = kinds_for(p, isdealer);
+					Dev d;
+					if (v == 0 && p != P_PVSS) { d = make_dev(D_SILENT, sc, f, r); d.phase = 0; d.k = (long)t + 3; }
+					else if (v == 1 && p != P_PVSS) { d = make_dev(D_BC_ALTER, sc, f, r); d.phase = 0; d.k = (long)t + 4 + (long)r.below((uint64_t)t + 1); }
+					else d = make_dev(ks[r.below(ks.size())], sc, f, r);
+					sc.devs.push_back(d);
+				}
 				add(sc);
 			}
 		}
